@@ -8,6 +8,24 @@ BASE = json.load(open("/root/.vp/BASELINE.json"))
 
 # pid -> (technique, level text, level note, design ref)
 CLAIMED = {
+    "C01": ("TLA+ AssemblyDNA.tla/Restriction.tla: TLC ImplProduct = Formula on all rotations/orders of small worlds + TLC validation of assembly traces against the closed form computed from sites and cuts",
+            "The documented closed form of the product is a TLA+ operator over the canonic decompositions; TLC proves the implementation-shaped computation equal to it on every rotation and argument order of small worlds and recomputes it for every real assembly (26 real + 5 synthetic geometries, chains 1-5, random rotations, shuffled arguments), comparing as circles.",
+            "Oracle uses neither the structure regex nor elucidate(); sampled inputs beyond the small worlds.", "6/C01"),
+    "C03": ("TLA+ Assembly.tla: TLC step machine = Expected over all overhang graphs + negative-free replay of final states into real code + TLC validation of the executions at DNA level",
+            "The assembly is an explicit step machine compared by TLC with the declarative outcome on every vector pair and module sequence over an alphabet with reverse-complementary and palindromic overhangs; final states are concretised to DNA and executed (outcome, stall overhang, unused set compared) and every execution is re-judged by the DNA-level trace specification; argument-order twins.",
+            "Module sequences bounded at 3 (quick) over 5-7 symbols; palindromic start overhang read permissively (DESIGN 5).", "6/C03"),
+    "C07": ("TLA+ Assembly.tla: TLC InputsRestored with a fault at every step + negative model + TLC validation of traces with exceptions injected at every call into instrumented inputs",
+            "Crash points are actions of the specification (Fault at every step); the negative model without restore is refuted; in the real code an exception is injected at every call the assembly makes into the supplied objects, and deep snapshots of every input before/after plus repeated calls are compared by the trace specification.",
+            "Crash points = calls into user-supplied objects (overhang_start/overhang_end/target_sequence).", "6/C07"),
+    "C08": ("TLA+ Trace_Assembly.tla fragment map (from Restriction cuts) + CircularRecord.tla: TLC validation of annotated assemblies by denotation",
+            "TLC derives from sites and cuts where every nucleotide of every input ends up, maps each input feature lying inside its retained fragment and requires the product's non-generated features to be exactly that bag (type, qualifiers, strand, nucleotides).", "Random feature tables; periodic products try every aligning offset.", "6/C08"),
+    "C09": ("TLA+ Trace_Assembly.tla: provenance clauses (MetaRequested, SourcesTile, SourcesVerbatim) + GenBank round-trip identity, validated by TLC on real products",
+            "Generated source features are identified and required to tile the product and to cover text occurring verbatim in the named plasmid; id/name/topology/comment; round trip through Bio.SeqIO judged as identity on sequence, topology, feature types and denotations.", "GenBank I/O itself is Biopython's (trusted).", "6/C09"),
+    "C10": ("TLA+ Trace_Assembly.tla: RefsOnceAndSameTarget through the fragment map + Assembly.tla de-/re-reference steps (TLC)",
+            "Citations are resolved to the references they denote on inputs and product; TLC maps cited features through the fragment map and requires same targets, [n] form, each cited reference once, and that cited inputs assemble like uncited ones.", "Reference lists distinct within a record.", "6/C10"),
+    "C19": ("TLA+ Assembly.tla Interchange (TLC) + TLC validation of swap twins against the closed form with one segment exchanged",
+            "At the graph level every chain position is determined by overhangs only (TLC); for real assemblies every chain position is replaced by a fresh module with the same overhangs and TLC requires the new product to be the closed form with only that segment exchanged.", "Generated replacements; registry replacements in thorough tier.", "6/C19"),
+
     "C13": ("TLA+ CircularRecord.tla: TLC over all rotation/reverse-complement sequences on small records + every transition replayed into real CircularRecords + TLC validation of operation chains",
             "The record algebra is a TLA+ state machine with ghost nucleotide identities; TLC checks that the record is always the image of the original under the composed group element and that features and per-letter tracks follow their nucleotides, every enumerated transition is executed on a real CircularRecord (two coordinate representations) and compared, and random operation chains on real records are validated step by step and against the composed element.",
             "Record lengths 4-6 exhaustive in the model, 4-40 random in traces.", "6/C13"),
